@@ -24,14 +24,28 @@ func isCypherSymbolPart(char rune) bool {
 	return isCypherIDContinue(char) || unicode.In(char, unicode.Sc)
 }
 
+// nonSchemaNameKeywords holds the keywords of the grammar, in lower case, that are neither an alternative of
+// oC_ReservedWord nor of oC_SymbolicName. The lexer reads a name spelled like one of them, in any case, as the keyword
+// token, so unlike every other keyword they can not stand bare where a schema name is expected.
+var nonSchemaNameKeywords = map[string]struct{}{
+	"allshortestpaths": {}, "assert": {}, "call": {}, "commit": {}, "csv": {}, "cypher": {}, "explain": {},
+	"fieldterminator": {}, "foreach": {}, "from": {}, "headers": {}, "index": {}, "join": {}, "load": {}, "node": {},
+	"periodic": {}, "profile": {}, "reduce": {}, "rel": {}, "relationship": {}, "scan": {}, "shortestpath": {},
+	"start": {}, "using": {}, "yield": {},
+}
+
 // CanEmitBarePropertyKeyName returns true when a raw property key can be emitted without backticks.
 //
 // This is specific to Cypher property-key position, such as n.name and {name: value}. Property keys use
 // oC_PropertyKeyName -> oC_SchemaName, where reserved words are valid bare names, unlike variable or parameter
-// symbols. Empty keys and keys containing characters outside the unescaped symbolic-name grammar return false; non-empty
+// symbols. The keywords that are not reserved words (nonSchemaNameKeywords) are not. Empty keys and keys containing characters outside the unescaped symbolic-name grammar return false; non-empty
 // keys outside the bare grammar are still representable by EscapePropertyKeyName using backticks.
 func CanEmitBarePropertyKeyName(name string) bool {
 	if name == "" {
+		return false
+	}
+
+	if _, isKeyword := nonSchemaNameKeywords[strings.ToLower(name)]; isKeyword {
 		return false
 	}
 
